@@ -211,7 +211,7 @@ def run_split(ctx, prog, plan_, T, Tsteps, K, stats):
                     env.step()
                 except K.EmptySchedule:
                     break
-                except Exception as exc:
+                except (Exception, kern.Crit) as exc:
                     log_escape(exc)
                     break
             S = strip_end(r.tape)
